@@ -62,7 +62,17 @@ namespace occa {
     }
 
     void leftUnaryOpNode::print(printer &pout) const {
-      pout << op << *value;
+      pout << op;
+      // Keep sign-like tokens apart: - -x, + ++x and & &x must not
+      //   be printed as --x, +++x and &&x
+      const std::string valueStr = value->toString();
+      const char opEnd = op.str[op.str.size() - 1];
+      if (valueStr.size()
+          && (valueStr[0] == opEnd)
+          && ((opEnd == '+') || (opEnd == '-') || (opEnd == '&'))) {
+        pout << ' ';
+      }
+      pout << *value;
     }
 
     void leftUnaryOpNode::debugPrint(const std::string &prefix) const {
